@@ -23,18 +23,19 @@ type evalErr string
 func efail(f string, a ...interface{}) { panic(evalErr(fmt.Sprintf(f, a...))) }
 
 type Env struct {
-	w      *World
-	pkg    *types.Package
-	vars   map[string]EV
-	st     *State // current state (heap); nil in pure context
-	old    *Env   // environment for old(...)
-	alloc0 Term   // allocation counter at the reference point for fresh()
-	allocL Term   // allocation counter at loop entry, for freshL() in loop invariants
-	preEnv *Env   // loop-entry environment, for pre() in loop invariants
-	lookup func(name string) (EV, bool)
-	inOld  bool
-	fuel   int
-	facts  *[]Term // heap well-formedness facts about refs read while evaluating (assumed by the caller)
+	w       *World
+	pkg     *types.Package
+	vars    map[string]EV
+	st      *State // current state (heap); nil in pure context
+	old     *Env   // environment for old(...)
+	alloc0  Term   // allocation counter at the reference point for fresh()
+	allocL  Term   // allocation counter at loop entry, for freshL() in loop invariants
+	preEnv  *Env   // loop-entry environment, for pre() in loop invariants
+	prevEnv *Env   // environment at the head of the current iteration, for prev() in loop step clauses
+	lookup  func(name string) (EV, bool)
+	inOld   bool
+	fuel    int
+	facts   *[]Term // heap well-formedness facts about refs read while evaluating (assumed by the caller)
 }
 
 // noteRef records that a reference-typed value read from state env.st is allocated in that state.
@@ -354,6 +355,18 @@ func (env *Env) eval(e *Expr) EV {
 		}
 		return env.old.eval(e.Args[0])
 	case "call":
+		if e.Name == "prev" {
+			if env.prevEnv == nil {
+				efail("prev() is only available in loop step clauses")
+			}
+			if len(e.Args) != 1 {
+				efail("prev takes one argument")
+			}
+			pe := *env.prevEnv
+			pe.vars = env.vars
+			pe.facts = env.facts
+			return pe.eval(e.Args[0])
+		}
 		if e.Name == "pre" {
 			if env.preEnv == nil {
 				efail("pre() is only available in loop invariants")
